@@ -142,8 +142,8 @@ fn open_comment_family(cfg: &RunCfg) -> Vec<Case> {
         }
         let t = rtoks[rng.below(rtoks.len())];
         let mut s = text.clone();
-        s.insert_str(t.start, ["/* open ", "/*", "/* a /* b */ "][set % 3]);
-        out.push(Case { text: s, lower: rtoks[0].start.min(t.start), upper: None, what: format!("open-comment: a block comment opened before token `{}` and never closed", &text[t.start..t.end]), as_file: set % 2 == 0 });
+        s.insert_str(t.start, ["/* open ", "/*", "/* a /* b */ "][(set / 3) % 3]);
+        out.push(Case { text: s, lower: rtoks[0].start.min(t.start), upper: None, what: format!("open-comment: a block comment opened before token `{}` and never closed", &text[t.start..t.end]), as_file: (set / 2) % 2 == 0 });
     }
     out
 }
